@@ -371,6 +371,7 @@ def step (line : String) : String :=
   | "cdec" :: args => ProtoOps.cdecOp args
   | "hreq" :: args => ProtoOps.hreqOp args
   | "rseq" :: args => ProtoOps.rseqOp args
+  | "sseq" :: args => ProtoOps.sseqOp args
   | "disp" :: args => dispOp args
   | ["path", h] => match hexArg h with
     | some b => hexOut (extractProtoPath b)
